@@ -178,7 +178,7 @@ func (b *TemplateBuilder) buildTranslate() {
 	b.Translate = caseCodes
 	caseCodes = ""
 	for _, sy := range b.vnode.G.Symbols {
-		caseCodes += fmt.Sprintf("\tcase %d:\n \tconv = \"%s\"\n", sy.ID, parser.RemoveTempName(sy.Name))
+		caseCodes += fmt.Sprintf("\tcase %d:\n \tconv = %q\n", sy.ID, parser.RemoveTempName(sy.Name))
 	}
 	b.TranslateTrace = caseCodes
 	caseCode := ""
@@ -192,7 +192,7 @@ func (b *TemplateBuilder) buildTranslate() {
 		}
 		strTrace := fmt.Sprintf("%s -> %s",
 			leftPartString, rightPartString)
-		caseCode += fmt.Sprintf("\n\t\tfmt.Printf(\"look ahead %%s, %s, go to state %%d\\n\", look, s)\n", strTrace)
+		caseCode += fmt.Sprintf("\n\t\tfmt.Printf(\"look ahead %%s, %%s, go to state %%d\\n\", look, %q, s)\n", strTrace)
 	}
 	b.ReduceTrace = caseCode
 }
